@@ -1,4 +1,5 @@
 """C04 - the generated Ninja manifest is well-formed (statement level; graph closure outside)."""
+import os
 from symx.api import *
 from harness.ninjaref import DecodeError, parse_manifest, path_text
 from harness.c03 import Out
@@ -257,6 +258,72 @@ def ob_unity(nmax):
     return h
 
 
+def ob_dyndeps():
+    """module dependency scanning (Fortran / C++ modules): the real NinjaBackend.generate_dependency_scan_target for an executable and the 1-2 libraries it
+    links, each of which either scans (Fortran sources, C++ with a modules flag) or does not (plain C / C++) - a SYMBOLIC choice per target. Closure for this
+    edge kind: every depscan.json a depaccumulate statement reads is produced by a depscan statement; a target that does not scan gets no statement"""
+    def h():
+        import types, tempfile, shutil
+        from mesonbuild import build as B
+        from mesonbuild.mesonlib import MachineChoice
+        tmp = tempfile.mkdtemp(prefix='c04dyn')
+        try:
+            be = object.__new__(nb.NinjaBackend)
+            be.ninja_has_dyndeps = True; be._uses_dyndeps = False
+            be.all_outputs = set(); be.build_to_src = '../src'
+            be.environment = types.SimpleNamespace(get_build_dir=lambda: tmp)
+            be.ninja = types.SimpleNamespace(elems=[], add_build=lambda e: (e.check_outputs(), be.ninja.elems.append(e)))
+            be.get_target_filename = lambda t, warn_multi_output=True: t.subdir + '/' + t.filename if t.subdir else t.filename
+            be.get_target_option = lambda t, k: 'c++17'
+            cppc = types.SimpleNamespace(get_cpp_modules_args=lambda: ['-fmodules-ts'], get_id=lambda: 'gcc', version='12')
+            nlibs = 1 + choose(2, 'libraries')
+            kinds = []          # 0 plain C, 1 plain C++, 2 C++ with the modules flag, 3 Fortran
+            targets = []
+            for i in range(nlibs + 1):
+                k = choose(4, 'kind%d' % i); kinds.append(k)
+                t = object.__new__(B.Executable if i == 0 else B.StaticLibrary)
+                t.name = 'app' if i == 0 else 'lib%d' % i
+                t.subdir = ''; t.subproject = ''; t.for_machine = MachineChoice.HOST
+                t.filename = t.name if i == 0 else 'lib%s.a' % t.name
+                t.compilers = {0: {'c': object()}, 1: {'cpp': cppc}, 2: {'cpp': cppc}, 3: {'fortran': object()}}[k]
+                t.extra_args = {'cpp': ['-fmodules-ts'] if k == 2 else [], 'c': [], 'fortran': []}
+                t.objects = []
+                t.uses_fortran = (lambda kk: (lambda: kk == 3))(k)
+                targets.append(t)
+                os.makedirs(os.path.join(tmp, be.get_target_private_dir(t)), exist_ok=True)
+            app, libs = targets[0], targets[1:]
+            chain = nlibs == 2 and choose(2, 'lib1 links lib2') == 1
+            linked = {id(app): list(libs), id(libs[0]): ([libs[1]] if chain else [])}
+            if nlibs == 2: linked[id(libs[1])] = []
+            for t in targets:
+                t.get_all_linked_targets = (lambda tt: (lambda: list(linked[id(tt)])))(t)
+                t.get_objects = lambda: []
+            order = list(targets) if choose(2, 'libraries first') == 0 else list(reversed(targets))
+            for t in order:
+                src = {0: 'x.c', 1: 'x.cpp', 2: 'x.cpp', 3: 'x.f90'}[kinds[targets.index(t)]]
+                be.generate_dependency_scan_target(t, [src], {src: src + '.o'}, [])
+            produced = set()
+            for e in be.ninja.elems:
+                for o in e.outfilenames: produced.add(o)
+            scans = [k >= 2 for k in kinds]
+            for t, s in zip(targets, scans):
+                js, dd = be.get_dep_scan_file_for(t)
+                check((js in produced) == s and (dd in produced) == s, 'a target gets its depscan / depaccumulate statements iff it scans for modules')
+            for e in be.ninja.elems:
+                for i_ in list(e.infilenames) + list(e.deps) + list(e.orderdeps):
+                    if i_.endswith('depscan.json') or i_.endswith('depscan.dd'):
+                        check(i_ in produced, 'every scan file a statement reads is the output of another statement')
+            for t, s in zip(targets, scans):
+                if not s: continue
+                acc = [e for e in be.ninja.elems if e.rulename == 'depaccumulate' and be.get_dep_scan_file_for(t)[1] in e.outfilenames][0]
+                want = {be.get_dep_scan_file_for(t)[0]} | {be.get_dep_scan_file_for(l)[0] for l in linked[id(t)] if scans[targets.index(l)]}
+                check(set(acc.infilenames) == want, 'the accumulated module information is its own scan plus the scans of the linked targets that scan')
+            cover('scanning' if any(scans) else 'none')
+        finally:
+            shutil.rmtree(tmp, ignore_errors=True)
+    return h
+
+
 def obligations(tier):
     q = tier == 'quick'
     out = [Obligation('paths[%d]' % k, ob_statement(k, False), dict(path_len=k, lists='outputs, implicit outputs, inputs', alphabet=PA, rule='R|S|phony|undefined', rsp_threshold='symbolic'),
@@ -270,4 +337,5 @@ def obligations(tier):
                           labels=('nonempty', 'shared-unity-file', 'several-unity-files'), max_paths=3000000))
     for n, pl in ((2, 1), (2, 2)) if q else ((2, 1), (2, 2), (3, 1), (3, 2)):
         out.append(Obligation('producers[%d,%d]' % (n, pl), ob_producers(n, pl), dict(statements=n, outputs_each='1-2', path_len=pl), labels=('rejected', 'accepted'), max_paths=3000000))
+    out.append(Obligation('dyndeps-closure', ob_dyndeps(), dict(real='NinjaBackend.generate_dependency_scan_target / should_use_dyndeps_for_target / get_dep_scan_file_for', targets='an executable + 1-2 static libraries (optionally chained)', per_target='plain C | plain C++ | C++ with a modules flag | Fortran', generation_order='both'), labels=('scanning', 'none')))
     return out
